@@ -487,6 +487,14 @@ int __printf(void (*printchar_handler)(void *d, int c),
         switch (c)
         {
         default:
+            if (c == '\0')
+            {
+                /* the format ends inside a directive: print what there is
+                 * of it and stop at the terminator */
+                for (; begin < format; ++begin, ++pc)
+                    printchar_handler(printchar_data, *begin);
+                return pc;
+            }
             pc += (int)(format - begin + 1);
             do
                 printchar_handler(printchar_data, *begin);
